@@ -21,7 +21,46 @@ inductive Json where
   | obj (kvs : List (String × Json))
   deriving Repr, Inhabited
 
+/-- A double, named by the text `float.__repr__` gives it (shortest round-trip repr): distinct
+    doubles — including `-0.0`, subnormals, `inf`, `nan` — have distinct names, equal doubles the same. -/
+abbrev Flt := String
+
 namespace Json
+
+mutual
+/-- apply a numeric leaf encoder to every float leaf (structure, keys and all other leaves kept):
+    `json.dumps` is `structural printer ∘ mapFlt float.__repr__`; a serialiser that rounds
+    (e.g. `DataFrame.to_json(double_precision=15)`) is `mapFlt` of a non-injective encoder -/
+def mapFlt (num : Flt → String) : Json → Json
+  | null => null
+  | bool b => bool b
+  | int n => int n
+  | flt x => flt (num x)
+  | str s => str s
+  | arr xs => arr (mapFltList num xs)
+  | obj kvs => obj (mapFltObj num kvs)
+def mapFltList (num : Flt → String) : List Json → List Json
+  | [] => []
+  | x :: xs => mapFlt num x :: mapFltList num xs
+def mapFltObj (num : Flt → String) : List (String × Json) → List (String × Json)
+  | [] => []
+  | (k, v) :: r => (k, mapFlt num v) :: mapFltObj num r
+end
+
+mutual
+/-- the float leaves, in document order -/
+def floats : Json → List Flt
+  | flt x => [x]
+  | arr xs => floatsList xs
+  | obj kvs => floatsObj kvs
+  | _ => []
+def floatsList : List Json → List Flt
+  | [] => []
+  | x :: xs => floats x ++ floatsList xs
+def floatsObj : List (String × Json) → List Flt
+  | [] => []
+  | (_, v) :: r => floats v ++ floatsObj r
+end
 
 /-- `d[k]` on a dict (first binding; `none` models `KeyError` / wrong type). -/
 def get? (k : String) : Json → Option Json
